@@ -1,7 +1,7 @@
 """Small repository-specific rules written after the third round of blind seeded changes."""
 import ast
 
-from ..core.astutil import u, call_name, ncmp, const
+from ..core.astutil import u, call_name, ncmp, const, resolved
 from ..core.index import AnalysisError
 
 
@@ -37,7 +37,7 @@ def r_basisguard(idx, rep, rule="R-BASISGUARD"):
         for s in ast.walk(ast.Module(body=body, type_ignores=[])):
             if isinstance(s, ast.Call) and call_name(s) in ("math.sqrt", "np.sqrt") and s.args:
                 comps = set()
-                for sub in ast.walk(s.args[0]):
+                for sub in ast.walk(resolved(f.node, s.args[0])):
                     if isinstance(sub, ast.Subscript) and u(sub.value) == n and isinstance(const(sub.slice), int):
                         comps.add(const(sub.slice))
                 out = comps
